@@ -42,6 +42,8 @@ func (e *Exec) callHostMethod(caller *frame, m *hostMethod, args []Value) Value 
 		return e.ctxMethod(caller, m.recv.data.(*ctxObj), m.name, args)
 	case "hash":
 		return e.hashMethod(caller, m.recv.data.(*hashState), m.name, args)
+	case "rtype":
+		return e.rtypeMethod(caller, m.recv.data.(types.Type), m.name, args)
 	}
 	panic(e.unsupported("host method %s.%s", m.recv.kind, m.name))
 }
